@@ -646,3 +646,47 @@ mod tests {
         }
     }
 }
+
+#[cfg(feature = "verif_hooks")]
+impl SendChannelReliable {
+    pub(crate) fn verif_unacked(&self) -> Vec<crate::verif::UnackedInfo> {
+        self.unacked_messages
+            .iter()
+            .map(|(&message_id, m)| match m {
+                UnackedMessage::Small { message, .. } => crate::verif::UnackedInfo {
+                    message_id,
+                    len: message.len(),
+                    acked_slices: vec![],
+                },
+                UnackedMessage::Sliced { message, acked, .. } => crate::verif::UnackedInfo {
+                    message_id,
+                    len: message.len(),
+                    acked_slices: acked.clone(),
+                },
+            })
+            .collect()
+    }
+
+    pub(crate) fn verif_memory(&self) -> (usize, usize) {
+        (self.memory_usage_bytes, self.max_memory_usage_bytes)
+    }
+
+    pub(crate) fn verif_set_next_message_id(&mut self, id: u64) {
+        self.next_reliable_message_id = id;
+    }
+}
+
+#[cfg(feature = "verif_hooks")]
+impl ReceiveChannelReliable {
+    pub(crate) fn verif_memory(&self) -> (usize, usize) {
+        (self.memory_usage_bytes, self.max_memory_usage_bytes)
+    }
+
+    pub(crate) fn verif_set_oldest_pending_message_id(&mut self, id: u64) {
+        self.oldest_pending_message_id = id;
+    }
+
+    pub(crate) fn verif_partial_messages(&self) -> usize {
+        self.slices.len()
+    }
+}
